@@ -43,7 +43,9 @@ Record Inv (s : state) : Prop := mkInv {
                         ocl (store s q) = CClass -> method_like (okind (store s o)) = true;
   inv_I5b : forall o q, reg s o -> oparent (store s o) = Some q -> is_module (ocl (store s o)) = true ->
                         ocl (store s q) = CPackage;
-  inv_I5c : forall o, reg s o -> can_contain_imports (ocl (store s o)) = false -> ocont (store s o) = []
+  inv_I5c : forall o, reg s o -> can_contain_imports (ocl (store s o)) = false -> ocont (store s o) = [];
+  (* rootobjects lists no module twice *)
+  inv_rnodup : NoDup (roots s)
 }.
 
 (* the walk down `contents` from a reaches every registered object below a: no superseded duplicate (which is
@@ -57,21 +59,18 @@ Definition guard_add_child (s : state) (c : ocls) (n : name) (q : id) : Prop :=
   (forall pq prev, fullpath s q = Some pq -> rget (pq ++ [n]) (allobj s) = Some prev -> covered s prev).
 
 (* a module under a new name; a module that loses against an existing package of that name ("packages win":
-   nothing changes); or, INSIDE A PACKAGE, a module that replaces the registered module of that name ("the last
-   wins"): the old one must still be in unprocessed_modules (it has not been replaced before) and nothing
-   superseded may lie below it.  Excluded: the replacement of a TOP-LEVEL module (C02_dup_root_refuted). *)
+   nothing changes); or a module that replaces the registered module of that name ("the last wins"), top-level or
+   inside a package: nothing superseded may lie below the old one. *)
+Definition replace_ok (s : state) (pkg : bool) (first : id) : Prop :=
+  (ocl (store s first) = CPackage /\ pkg = false) \/
+  (is_module (ocl (store s first)) = true /\ ocls_eqb (ocl (store s first)) CPackage && negb pkg = false /\
+   covered s first).
 Definition guard_add_module (s : state) (pkg : bool) (n : name) (parent : option id) : Prop :=
   match parent with
-  | None =>
-    rget [n] (allobj s) = None \/
-    (exists first, rget [n] (allobj s) = Some first /\ ocl (store s first) = CPackage /\ pkg = false)
+  | None => forall first, rget [n] (allobj s) = Some first -> replace_ok s pkg first
   | Some q =>
     reg s q /\ ocl (store s q) = CPackage /\
-    (forall pq first, fullpath s q = Some pq -> rget (pq ++ [n]) (allobj s) = Some first ->
-                      (ocl (store s first) = CPackage /\ pkg = false) \/
-                      (is_module (ocl (store s first)) = true /\
-                       ocls_eqb (ocl (store s first)) CPackage && negb pkg = false /\
-                       In first (unproc s) /\ covered s first))
+    (forall pq first, fullpath s q = Some pq -> rget (pq ++ [n]) (allobj s) = Some first -> replace_ok s pkg first)
   end.
 
 Definition guard_reparent (s : state) (o np : id) (nn : name) : Prop :=
